@@ -11,7 +11,12 @@ ids, greedy segmentation by the criteria against an independently accumulated ru
 (sqlite total_changes), second run on the same objects gives the same result, and previously used objects
 behave like fresh ones (D9).
 
-TODO hooks (database-backed clauses, to be added on top of this module): `children_bp`, `merge_all`.
+two-stage merges (`chain_case`): the outputs of one merge() - incl. the multi-member ones - are merged again and every
+clause is judged on the second call (oracle only: a multi-member object cannot be written in the `merge` command).
+
+database-backed clauses: `children_bp` (exons on one or both strands, level-1 and level-2 children, default criteria and
+criteria without mc.strand; `judge_children_bp`, replayable) and `merge_all` (tables afterwards and the returned list,
+compared with the model as a SEQUENCE of ids; command `bp` / `mergeall`).
 """
 import itertools
 import types
@@ -187,6 +192,13 @@ class Session:
         if err:
             fails.append("merge raised %s on proper intervals" % err)
             return fails
+        for o in outs:
+            if any(o is f for f in objs) and len(getattr(o, "children", ())) != 0:
+                # an input that comes back on its own must carry NO children - also when it is itself the multi-member
+                # output of an earlier merge() (quantifier: "fresh or previously merged feature objects")
+                fails.append("an input yielded on its own (%s %s-%s) still carries %d children of an earlier merge()"
+                             % (o.id, o.start, o.end, len(o.children)))
+                return fails
         seg = seg_of(outs, objs)
         if seg is None or sorted(i for run in seg for i in run) != list(range(len(objs))):
             fails.append("outputs do not partition the inputs (each input yielded alone or child of exactly one "
@@ -292,13 +304,120 @@ def one_case(ses, items, names, payload, union=False, rerun=True, corr=True, cor
                                                 pf))
 
 
+def chain_case(ses, items, names, then_names, payload, union=False):
+    """two-stage merge: the OUTPUTS of merge(objs, names) - input objects that stayed alone AND the fresh multi-member
+    outputs - are the inputs of merge(outputs, then_names).  The property's clauses are judged on the second call
+    exactly as on a first one (partition by identity: an output that stays alone comes back unchanged with no
+    children; span; fresh ids; greedy segmentation; inputs unchanged; same result when repeated).  A multi-member
+    output cannot be written in the `merge` protocol command (an item is a GFF line): oracle only."""
+    res = ses.res
+    objs = [it.build() for it in items]
+    outs1, err1 = ses.call(items, objs, names, corr=False)
+    if err1 or not outs1:
+        return
+    for o in outs1:
+        if getattr(o, "children", ()):
+            ses.issued.add(o.id)
+    if any("," in o.seqid for o in outs1):        # criteria without `seqid`: comma seqids are outside the domain
+        return
+    p = dict(payload, then_on_outputs=then_names,
+             note="the outputs of merge(features, criteria) were merged again with `then_on_outputs`")
+    multi = set(id(o) for o in outs1 if getattr(o, "children", ()))      # the multi-member outputs of the first stage
+    before = snapshot(outs1)
+    outs2, err2 = ses.call(None, outs1, then_names, corr=False)
+    res.evaluations += 1
+    res.count("chain_second_stage")
+    fails = ses.judge(None, outs1, then_names, outs2, err2, before, p, union=union)
+    for w in fails:
+        res.oracle_failures.append(("second-stage merge of the outputs of a merge: " + w, p))
+    if err2 or fails:
+        return
+    alone = sum(1 for o in outs2 if id(o) in multi)
+    if alone:
+        res.count("chain_multi_member_output_stays_alone", alone)
+        res.nontriv(("chain", tuple(names), tuple(then_names), tuple(it.line for it in items)))
+    first = summary(outs2)
+    outs3, err3 = ses.call(None, outs1, then_names, corr=False)
+    res.evaluations += 1
+    if err3:
+        res.oracle_failures.append(("second-stage merge: merging the same objects again raised %s" % err3, p))
+    elif summary(outs3) != first:
+        res.oracle_failures.append(("second-stage merge: merging the same objects again gives a different result", p))
+    elif snapshot(outs1) != before:
+        res.oracle_failures.append(("second-stage merge: an input's columns or attributes changed in the second run", p))
+    else:
+        for o in outs3:
+            if getattr(o, "children", ()):
+                ses.issued.add(o.id)
+
+
+# ---------------------------------------------------------------------------------------------------
+# children_bp (database-backed clause): one case = one imported file + the generator's record of the exons
+
+def union_size(ivs):
+    covered = set()
+    for iv in ivs:
+        covered.update(range(iv[0], iv[1] + 1))
+    return len(covered)
+
+
+def judge_children_bp(ctx, res, case):
+    """`children_bp(parent, "exon")` for every parent of the case (the transcript; the gene above it, whose exons are
+    level-2 children): merge=False = summed child lengths; merge=True = size of the union - under the default criteria
+    when the exons lie on one strand, under criteria WITHOUT mc.strand (seqid, overlap_end_inclusive, feature_type) on
+    one or two strands.  Default criteria on two strands merge per strand over a start-ordered mixed stream: not a
+    union, compared with the model only.  Returns the observations for the correspondence."""
+    import os
+    import dbside
+    from gffutils import merge_criteria as mc
+    lines, exons = case["input"], [tuple(x) for x in case["exons"]]
+    path = dbside.write_lines(os.path.join(ctx.scratch, "bp.gff3"), lines)
+    db, rep = dbside.py_create(path, dbside.Cfg())
+    if db is None:
+        return None
+    obs = {"db": db, "create": rep, "bp": []}
+    one_strand = len(set(x[2] for x in exons)) <= 1
+    total, union = sum(b - a + 1 for a, b, _ in exons), union_size(exons)
+    nostrand = [mc.seqid, mc.overlap_end_inclusive, mc.feature_type]
+    for parent in case["parents"]:
+        for label, kw, want in (("merge=False", dict(merge=False), total),
+                                ("merge=True", dict(merge=True), union if one_strand else None),
+                                ("merge=True, merge_criteria without mc.strand",
+                                 dict(merge=True, merge_criteria=nostrand), union)):
+            try:
+                got = db.children_bp(parent, child_featuretype="exon", **kw)
+            except Exception as ex:
+                common.fail(res, case, "children_bp_raised", "children_bp(%r, %s) raised %r" % (parent, label, ex),
+                            error=pyside.err_name(ex), parent=parent, arguments=label)
+                continue
+            if "merge_criteria" not in kw:
+                obs["bp"].append((parent, kw["merge"], got))
+            if want is not None and got != want:
+                common.fail(res, case, "children_bp_wrong",
+                            "children_bp(%r, 'exon', %s) is not the %s" % (
+                                parent, label, "summed child lengths" if not kw["merge"] else
+                                "size of the union of the children"),
+                            parent=parent, arguments=label, returned=got, expected=want)
+    return obs
+
+
+def judge(ctx, case):
+    res = common.Result("C16")
+    if case.get("scenario") == "children_bp":
+        judge_children_bp(ctx, res, case)
+        res.evaluations = 1
+    return res
+
+
 def run(ctx):
     res = common.Result("C16")
     r = ctx.rng("c16")
     res.rule = ("(a) start-ordered multisets of <= 4 intervals over 8 positions in one class, default criteria "
                 "(quick: all of size <= 3 and every 8th of size 4; thorough: all 91 390), x class assignments in the "
                 "thorough tier; (b) random class-grouped start-ordered lists of <= 12 intervals, default criteria, "
-                "union oracle; (c) random start-ordered mixed lists, every shipped criterion with thresholds 0-3 and "
+                "union oracle; (b') two-stage merges: the outputs of one merge() (single inputs and multi-member outputs) "
+                "merged again under the same, looser or other criteria, all clauses judged on the second stage; "
+                "(c) random start-ordered mixed lists, every shipped criterion with thresholds 0-3 and "
                 "reflexive custom criteria, greedy oracle; (d) objects re-used under other criteria; (e) malformed "
                 "stream (None / reversed coordinates, unordered, comma seqids, non-reflexive criterion): "
                 "correspondence only. non-trivial = distinct (criteria, interval list) with at least one merged output "
@@ -319,6 +438,12 @@ def run(ctx):
             res.count("exhaustive_k%d" % k)
             if len(ivs) >= 2:
                 res.nontriv(("d", ivs))
+                if n_a % 16 == 0 or (ctx.thorough and n_a % 4 == 0):
+                    # the outputs (incl. the multi-member ones) merged again: default criteria (every output stays
+                    # alone) or a gap threshold (some join, some stay alone)
+                    chain_case(ses, items, FL.DEFAULT_CRITERIA,
+                               FL.DEFAULT_CRITERIA if n_a % 32 else ["seqid", "endthr:2", "strand", "ftype"], payload,
+                               union=(n_a % 32 != 0))
             if len(ses.cmds) > 20000:
                 ses.flush(ctx)
     ses.flush(ctx)
@@ -358,6 +483,10 @@ def run(ctx):
                    "features": [it.as_json() for it in items]}
         one_case(ses, items, FL.DEFAULT_CRITERIA, payload, union=True, rerun=True, corr=True, corr_rerun=(t % 4 == 0),
                  other=(r.choice([[], ["anythr:3"], ["seqid", "endthr:3"]]) if t % 3 == 0 else None))
+        if t % 3 == 1:
+            then = r.choice([FL.DEFAULT_CRITERIA, ["seqid", "endthr:%d" % r.randrange(2, 6), "strand", "ftype"],
+                             ["seqid", "anythr:3"], ["seqid", "endinc"], ["seqid", "endthr:4", "max3"]])
+            chain_case(ses, items, FL.DEFAULT_CRITERIA, then, payload, union=(then == FL.DEFAULT_CRITERIA))
         res.count("random_classes")
         res.nontriv(("rc", tuple(x[1] for x in feats), tuple(x[0] for x in feats)))
         if t < 2:
@@ -385,6 +514,9 @@ def run(ctx):
         payload = {"stream": "criteria", "criteria": names, "features": [it.as_json() for it in items]}
         one_case(ses, items, names, payload, union=False, rerun=True, corr=True, corr_rerun=(t % 4 == 0),
                  other=(r.choice([[], FL.DEFAULT_CRITERIA, ["anyinc"]]) if t % 4 == 1 else None))
+        if t % 4 == 2 and "seqid" in names:
+            chain_case(ses, items, names, r.choice([names, FL.DEFAULT_CRITERIA, ["seqid", "endthr:3"], ["seqid", "anyinc", "ftype"]]),
+                       payload)
         for n_ in names:
             res.count("crit_" + n_.split(":")[0])
         res.nontriv(("c", tuple(names), tuple(x[1] for x in feats), tuple(x[0] for x in feats)))
@@ -435,12 +567,6 @@ def run(ctx):
     r2 = ctx.rng("dbmerge")
     dcmds, dexp, dtags = [], [], []
 
-    def union_size(ivs):
-        covered = set()
-        for a, b in ivs:
-            covered.update(range(a, b + 1))
-        return len(covered)
-
     def runs_of(ivs):
         """maximal runs of overlapping-or-adjacent intervals: list of (start, end, members)"""
         out = []
@@ -454,40 +580,62 @@ def run(ctx):
 
     ndb = 25 if not ctx.thorough else 300
     for di in range(ndb):
-        # a transcript with overlapping / adjacent / separate exons (one strand), plus unrelated features
+        # a transcript with overlapping / adjacent / separate exons, plus unrelated features.  Modes: exons on ONE strand
+        # (as merge_all groups them) or on BOTH strands with interleaved starts (trans-spliced: the union over both
+        # strands is what children_bp(merge=True, merge_criteria without mc.strand) promises); now and then a gene above
+        # the transcript (the exons are then level-2 children of the gene) and CDS children on both strands (>= 2
+        # featuretypes x 2 strands on one seqid: the order in which merge_all visits the classes shows in its result)
         strand = r2.choice("+-")
-        exons = []
-        for e in range(r2.randrange(0, 7)):
-            a = r2.randrange(1, 60)
-            exons.append((a, a + r2.randrange(0, 15)))
+        two = di <= 1 or r2.random() < 0.45
+        with_gene = di == 0 or r2.random() < 0.6
+        exons, cds = [], []
+        if di == 0:
+            exons = [(1, 10, "+"), (5, 15, "-"), (50, 60, "+"), (55, 58, "-")]
+        elif di == 1:
+            # a multi-member run in each of the four classes (exon, CDS) x (+, -) of chr1
+            exons = [(1, 10, "+"), (5, 15, "+"), (20, 30, "-"), (25, 35, "-")]
+            cds = [(40, 45, "+"), (44, 50, "+"), (52, 58, "-"), (55, 60, "-"), (70, 72, "+")]
+        else:
+            for e in range(r2.randrange(0, 7)):
+                a = r2.randrange(1, 60)
+                exons.append((a, a + r2.randrange(0, 15), r2.choice("+-") if two else strand))
         starts = set()
         exons = [x for x in exons if not (x[0] in starts or starts.add(x[0]))]      # pairwise different starts
-        lines = [gen_db.gff_line("chr1", "mRNA", 1, 100, strand, [("ID", ["t"])])]
-        for i, (a, b) in enumerate(exons):
-            lines.append(gen_db.gff_line("chr1", "exon", a, b, strand, [("ID", ["e%d" % i]), ("Parent", ["t"])]))
+        lines = []
+        if with_gene:
+            lines.append(gen_db.gff_line("chr1", "gene", 1, 100, strand, [("ID", ["g"])]))
+        lines.append(gen_db.gff_line("chr1", "mRNA", 1, 100, strand, [("ID", ["t"])] + ([("Parent", ["g"])] if with_gene else [])))
+        for i, (a, b, sd) in enumerate(exons):
+            lines.append(gen_db.gff_line("chr1", "exon", a, b, sd, [("ID", ["e%d" % i]), ("Parent", ["t"])]))
+        if two and di > 1:
+            cstarts = set()
+            for i in range(r2.randrange(2, 8)):
+                a = r2.randrange(1, 60)
+                if a not in cstarts:
+                    cstarts.add(a)
+                    cds.append((a, a + r2.randrange(0, 12), r2.choice("+-")))
+        for i, (a, b, sd) in enumerate(cds):
+            lines.append(gen_db.gff_line("chr1", "CDS", a, b, sd, [("ID", ["d%d" % i]), ("Parent", ["t"])]))
         for i in range(r2.randrange(0, 3)):
             a = r2.randrange(1, 60)
             lines.append(gen_db.gff_line("chr2", "exon", a, a + 5, strand, [("ID", ["o%d" % i])]))
-        path = dbside.write_lines(os.path.join(ctx.scratch, "bp.gff3"), lines)
-        db, rep = dbside.py_create(path, dbside.Cfg())
-        if db is None:
+        case = {"scenario": "children_bp", "input": lines, "exons": [list(x) for x in exons],
+                "parents": ["t"] + (["g"] if with_gene else []), "no_shrink": True}
+        path = os.path.join(ctx.scratch, "bp.gff3")
+        obs = judge_children_bp(ctx, res, case)
+        if obs is None:
             continue
+        db, rep = obs["db"], obs["create"]
         inp = {"lines": lines}
         res.evaluations += 1
+        res.nontriv(("bp", tuple(lines)))
+        res.count("children_bp_exons_on_two_strands" if len(set(x[2] for x in exons)) > 1 else "children_bp_exons_on_one_strand")
+        if with_gene:
+            res.count("children_bp_of_level2_children")
         dcmds.append(dbside.cmd_create(lines, dbside.Cfg())); dexp.append(rep); dtags.append(("create_db", repr(lines)))
-        for mg in (False, True):
-            try:
-                got = db.children_bp("t", child_featuretype="exon", merge=mg)
-            except Exception as ex:
-                res.oracle_failures.append(("children_bp raised %r" % ex, dict(inp, merge=mg)))
-                continue
-            want = union_size(exons) if mg else sum(b - a + 1 for a, b in exons)
-            if got != want:
-                res.oracle_failures.append(("children_bp(merge=%r) is not the %s" % (mg, "size of the union of the children"
-                                                                                     if mg else "summed child lengths"),
-                                            dict(inp, returned=got, expected=want)))
-            dcmds.append("bp %s %s %d" % (enc("t"), enc("exon"), 1 if mg else 0)); dexp.append("ok %d" % got)
-            dtags.append(("children_bp", repr((lines, mg))))
+        for parent, mg, got in obs["bp"]:
+            dcmds.append("bp %s %s %d" % (enc(parent), enc("exon"), 1 if mg else 0)); dexp.append("ok %d" % got)
+            dtags.append(("children_bp", repr((lines, parent, mg))))
         res.count("children_bp")
         # merge_all on a fresh copy of the same database
         for exclude in (False, True):
@@ -531,13 +679,27 @@ def run(ctx):
                                                  expected_runs=[(a, b, m_) for a, b, m_ in exp_runs])))
             dcmds.append(dbside.cmd_create(lines, dbside.Cfg())); dexp.append(rep); dtags.append(("create_db", repr(lines)))
             dcmds.append("mergeall %d" % (1 if exclude else 0))
-            dexp.append("SET " + pyside.enc_list(sorted(str(f.id) for f in merged))); dtags.append(("merge_all result", repr((lines, exclude))))
+            # the returned list follows the order in which merge_all visits the classes (seqid, featuretype, strand) and
+            # the runs inside a class (start); rows that tie on all four columns (SQL leaves their order open) belong
+            # to one run, so the sequence of returned ids is determined whenever the merged ids are - compared as a
+            # sequence; as a set only if two rows of one class share their start AND differ in extent
+            keys4 = {}
+            for x in before.values():
+                keys4.setdefault((x["seqid"], x["featuretype"], x["strand"], x["start"]), set()).add(x["end"])
+            determined = all(len(v) == 1 for v in keys4.values())
+            res.count("merge_all_result_compared_as_sequence" if determined else "merge_all_result_compared_as_set")
+            if len(set((x["featuretype"], x["strand"]) for x in before.values() if x["seqid"] == "chr1"
+                       and x["featuretype"] in ("exon", "CDS"))) >= 4:
+                res.count("merge_all_two_featuretypes_x_two_strands")
+            ids = [str(f.id) for f in merged]
+            dexp.append(("SEQ " if determined else "SET ") + pyside.enc_list(ids if determined else sorted(ids)))
+            dtags.append(("merge_all result", repr((lines, exclude))))
             dcmds.append("dump"); dexp.append(("DUMP", dbside.dump(db2))); dtags.append(("tables after merge_all", repr((lines, exclude))))
         res.count("merge_all")
         # several featuretypes_groups (oracle only; the model covers the default single group)
         lines2 = list(lines)
-        for i, (a, b) in enumerate(exons[:4]):
-            lines2.append(gen_db.gff_line("chr1", "CDS", a, b, strand, [("ID", ["c%d" % i]), ("Parent", ["t"])]))
+        for i, (a, b, sd) in enumerate(exons[:4]):
+            lines2.append(gen_db.gff_line("chr1", "CDS", a, b, sd, [("ID", ["c%d" % i]), ("Parent", ["t"])]))
         path2 = dbside.write_lines(os.path.join(ctx.scratch, "bp2.gff3"), lines2)
         for exclude in (False, True):
             db3, _ = dbside.py_create(path2, dbside.Cfg())
@@ -587,6 +749,10 @@ def run(ctx):
                 # the merged feature's `source` is a join over a Python set (order arbitrary): column 1 is not compared
                 if "error" in a or "error" in b or canon(a) != canon(b):
                     res.corr_disagreements.append((comp, inpx[:800], m[:700], e[1][:700]))
+            elif e.startswith("SEQ "):
+                mm = "SEQ " + pyside.enc_list([dec(x) for x in m[3:].split(",") if x != "_"]) if m.startswith("ok ") else m
+                if mm != e:
+                    res.corr_disagreements.append((comp, inpx[:800], m[:300], e[:300]))
             elif e.startswith("SET "):
                 mm = "SET " + pyside.enc_list(sorted(dec(x) for x in m[3:].split(",") if x != "_")) if m.startswith("ok ") else m
                 if mm != e:
@@ -603,20 +769,32 @@ def run(ctx):
         "(seqid, featuretype, strand) and start-ordered inside a class, as merge_all passes them",
         "custom criteria are reflexive; the non-reflexive `never` is used for the correspondence only",
         "`same result` of a second run is judged modulo the fresh ids (extents, class columns, source set, children)",
-        "merge_all / children_bp (database-backed clauses) are not covered by this module yet",
+        "children_bp(merge=True) is the size of the union when the criteria let every overlapping or adjacent pair of the "
+        "children merge: default criteria with the children on one strand, criteria without mc.strand on one or two "
+        "strands; default criteria on two strands are compared with the model only; children have pairwise different "
+        "starts (SQL leaves ties unordered)",
     ]
     return res
 
 
 def replay(ctx, payload):
-    res = common.Result("C16")
     inp = payload.get("input", {})
+    if isinstance(inp, dict) and inp.get("scenario") == "children_bp":
+        return common.replay_failure("C16", payload, lambda case: judge(ctx, case))
+    res = common.Result("C16")
     ses = Session(res)
     if "intervals" in inp:
         items = items_of([tuple(x) for x in inp["intervals"]])
     else:
         items = [FL.Item.from_json(d) for d in inp.get("features", [])]
     names = inp.get("criteria", FL.DEFAULT_CRITERIA)
+    if "then_on_outputs" in inp:
+        chain_case(ses, items, names, inp["then_on_outputs"],
+                   {k: v for k, v in inp.items() if k not in ("then_on_outputs", "note")})
+        print("replay: %s ; criteria=%s, outputs merged again with %s ; features=%s"
+              % (payload.get("what"), names, inp["then_on_outputs"], [it.line for it in items]))
+        print("replay: %d oracle failure(s): %s" % (len(res.oracle_failures), [w for w, _ in res.oracle_failures]))
+        return res
     one_case(ses, items, names, inp, union=(inp.get("stream") in ("exhaustive", "exhaustive-classes", "random-classes")),
              rerun=True, corr=True, other=inp.get("then_criteria"))
     ses.flush(ctx)
